@@ -279,54 +279,84 @@ def r44(db, ctx):
         return
     f = fs[0]
     R = X.Rec(f, ite=True)      # `if r > 0 { q + 1 } else { q }` is a value, not two unrelated definitions
-    st = [s for s in X.stores(f, R) if norm(s['target'])[0] == 'idx' and norm(s['target'])[1][0] == 'call' and norm(s['target'])[1][1].endswith('index_mut')]
-    probs = []
-    place = fillst = None
-    for s in st:
-        tg, v = norm(s['target']), norm(s['value'])
-        if v[0] == 'call' and v[1].endswith('Default::default'):
-            fillst = (tg, v)
-        else:
-            place = (tg, v)
-    if not place or not fillst:
-        ctx.fail('R4.4', f, 'placement', 'reason=unrecognised-shape')
-        return
-    rows_e = None
     from lm import iteralg
     CA = iteralg.Canon(f, R)
-    for tg, v in (place, fillst):
-        row, col = tg[1][2][1], tg[2]
+    probs = []
+    rows_e = None
+    # every store into the matrix: cell [i % R][i / R] for i in lo..hi, value v(i); a conditional value splits the range at len
+    pieces = []          # (lo, hi, value, i)
+    n_st = 0
+    for s in X.stores(f, R):
+        tg = CA.canon(s['target'])
+        if not (tg[0] == 'at' and tg[1][0] == 'at' and tg[1][1][0] in ('v', 'p') and 'DenseMatrix<' in f.local_ty(tg[1][1][1])):
+            continue
+        n_st += 1
+        row, col = tg[1][2], tg[2]
         b = m(('bin', 'Rem', '$i', '$r'), row)
         c = m(('bin', 'Div', '$i', '$r'), col)
-        if b is None or c is None or b != c:
+        if b is None or c is None or b != c or (rows_e is not None and rows_e != b['$r']):
             probs.append(f'cell [{X.show(row, 40)}][{X.show(col, 40)}] is not [i % R][i / R]')
             continue
         rows_e = b['$r']
         i = b['$i']
-        ic = CA.canon(i)
-        if tg is place[0]:
-            # the placed value is symbol i of the sequence, for every i in 0..len (enumerate or index loop)
-            vc = CA.canon(v)
-            pv = m(('at', '$s', '$i2'), vc)
-            ext = CA.extents.get(ic[1], []) if iteralg.is_pos(ic) else []
-            whole = bool(ext) and pv is not None and all((c_[0] == 'len' and c_[1] == pv['$s']) or (c_[0] == 'sub' and c_[2] == ('k', 0) and common.is_len_of(c_[1], pv['$s'])) for c_ in ext)
-            if pv is None or pv['$i2'] != ic or not whole:
-                probs.append('placed value is not symbol i of the sequence for every i in 0..len')
+        L = i if iteralg.is_pos(i) else (i[3] if i[0] == 'bin' and i[1] == 'Add' and iteralg.is_pos(i[3]) else None)
+        ext = CA.extents.get(L[1]) if L is not None else None
+        Ln = _loop_with_header_or_iter(f, R, L[1]) if L is not None and not isinstance(L[1], tuple) else None
+        if not ext or len(ext) != 1 or Ln is None or len(_normal_exits(f, Ln)) != 1:
+            probs.append(f'index {X.show(i, 60)} does not run over one complete range')
+            continue
+        if ext[0][0] == 'len':
+            lo, hi = ('k', 0), ('len', ext[0][1])
+        elif ext[0][0] == 'sub':
+            lo, hi = ext[0][2], ext[0][1]
         else:
-            # fill: i in len .. R*C  (rows()*columns() of the resized matrix, or R * C::USIZE with the same R)
-            ok_fill = False
-            if i[0] == 'elem' and i[1][0] == 'agg' and len(i[1][2]) == 2 and common.is_len_of(i[1][2][0]):
-                hi = i[1][2][1]
-                if common.is_product_of_calls(hi, ['DenseMatrix::columns', 'DenseMatrix::rows']):
-                    ok_fill = True
-                else:
-                    mm = m(('bin', 'Mul', '$a', '$b'), hi)
-                    if mm is not None:
-                        for x, y in ((mm['$a'], mm['$b']), (mm['$b'], mm['$a'])):
-                            if x == rows_e and (common.is_usize_const(y, 'C') or common.is_call_to(y, 'DenseMatrix::columns')):
-                                ok_fill = True
-            if not ok_fill:
-                probs.append(f'fill range {X.show(i[1], 80)} is not len .. rows*columns')
+            probs.append(f'index extent {ext}')
+            continue
+        if (lo == ('k', 0)) != iteralg.is_pos(i) or (lo != ('k', 0) and i[2] != lo):
+            probs.append(f'index {X.show(i, 60)} is not lo + position')
+            continue
+        v = CA.canon(s['value'])
+        sp = None
+        if v[0] == 'ite':
+            cnd = v[1]
+            g = m(('bin', 'Eq', ('discr', ('call~', 'slice::get', ('$s', '$i'))), ('k', 1)), cnd)
+            l = m(('bin', 'Lt', '$i', '$n'), cnd)
+            if g is not None and g['$i'] == i:
+                sp = ('len', g['$s'])
+            elif l is not None and l['$i'] == i and common.is_len_of(l['$n']):
+                sp = l['$n']
+        if sp is not None and lo == ('k', 0):
+            pieces.append((lo, sp, v[2], i))
+            pieces.append((sp, hi, v[3], i))
+        else:
+            pieces.append((lo, hi, v, i))
+    is_len = lambda e, sq: common.is_len_of(e, sq) or e == ('len', sq)
+    place = [p_ for p_ in pieces if not (p_[2][0] == 'call' and p_[2][1].endswith('Default::default'))]
+    fills = [p_ for p_ in pieces if p_[2][0] == 'call' and p_[2][1].endswith('Default::default')]
+    if len(place) != 1 or len(fills) != 1 or n_st not in (1, 2):
+        if not probs:
+            ctx.fail('R4.4', f, 'placement', f'reason=unrecognised-shape: {n_st} matrix stores, {len(place)} placement and {len(fills)} fill ranges')
+            return
+    else:
+        lo, hi, v, i = place[0]
+        pv = m(('at', '$s', '$i2'), v)
+        if pv is None:
+            g = m(('fld', ('down', ('call~', 'slice::get', ('$s', '$i2')), 'Some'), '0'), v)
+            pv = g
+        if pv is None or pv['$i2'] != i or lo != ('k', 0) or not is_len(hi, norm(pv['$s'])) or norm(pv['$s']) != ('p', 2):
+            probs.append('placed value is not symbol i of the sequence for every i in 0..len')
+        seq = norm(pv['$s']) if pv is not None else None
+        flo, fhi, _, _ = fills[0]
+        ok_fill = seq is not None and is_len(flo, seq)
+        if ok_fill:
+            ok_fill = common.is_product_of_calls(fhi, ['DenseMatrix::columns', 'DenseMatrix::rows'])
+            mm = m(('bin', 'Mul', '$a', '$b'), fhi)
+            if not ok_fill and mm is not None:
+                for x, y in ((mm['$a'], mm['$b']), (mm['$b'], mm['$a'])):
+                    if x == rows_e and (common.is_usize_const(y, 'C') or common.is_call_to(y, 'DenseMatrix::columns')):
+                        ok_fill = True
+        if not ok_fill:
+            probs.append(f'fill range {X.show(flo, 40)} .. {X.show(fhi, 60)} is not len .. rows*columns')
     if rows_e is not None and not ceil_div_ok(rows_e):
         probs.append(f'R = {X.show(rows_e, 80)} is not ceil(len / C)')
     # matrix resized to R rows, rebuilt via new()
